@@ -34,8 +34,8 @@ def gen(rng):
         ts = []
         for _ in range(rng.choice([1, 1, 2])):
             f = rng.choice(FILTERS)
-            if ver[c] == 5 and rng.random() < 0.15:
-                f = "$share/g/" + f
+            if rng.random() < 0.15:          # shared subscriptions work for v3.1.1 clients too
+                f = "$share/g" + c + "/" + f      # one member per group: which member is picked is C11's business
             o = [f, str(rng.choice([0, 1, 2]))]
             if ver[c] == 5:
                 if rng.random() < 0.4: o.append("rap")
